@@ -72,6 +72,9 @@ namespace nmtools::utl
         constexpr void resize(size_type new_size)
         {
             // TODO: assert/throw
+            #ifdef NMTOOLS_VERIF
+            NMTOOLS_VERIF_CHECK( ((nm_size_t)new_size > (nm_size_t)Capacity), 4, new_size, Capacity );
+            #endif // NMTOOLS_VERIF
             if (new_size <= Capacity) {
                 size_ = new_size;
             }
@@ -89,6 +92,9 @@ namespace nmtools::utl
 
         constexpr void push_back(const T& t)
         {
+            #ifdef NMTOOLS_VERIF
+            NMTOOLS_VERIF_CHECK( ((nm_size_t)size_+1 > (nm_size_t)Capacity), 4, size_+1, Capacity );
+            #endif // NMTOOLS_VERIF
             if (size_+1 > Capacity) {
                 return;
             }
@@ -110,6 +116,10 @@ namespace nmtools::utl
         constexpr reference at(index_type i)
         {
             // TODO: assert/throw
+            #ifdef NMTOOLS_VERIF
+            NMTOOLS_VERIF_CHECK( ((nm_size_t)i >= (nm_size_t)Capacity), 2, i, Capacity );
+            NMTOOLS_VERIF_CHECK( ((nm_size_t)i >= (nm_size_t)size_) && ((nm_size_t)i < (nm_size_t)Capacity), 9, i, size_ );
+            #endif // NMTOOLS_VERIF
             return buffer[i];
         }
 
@@ -117,6 +127,10 @@ namespace nmtools::utl
         constexpr const_reference at(index_type i) const
         {
             // TODO: assert/throw
+            #ifdef NMTOOLS_VERIF
+            NMTOOLS_VERIF_CHECK( ((nm_size_t)i >= (nm_size_t)Capacity), 2, i, Capacity );
+            NMTOOLS_VERIF_CHECK( ((nm_size_t)i >= (nm_size_t)size_) && ((nm_size_t)i < (nm_size_t)Capacity), 9, i, size_ );
+            #endif // NMTOOLS_VERIF
             return buffer[i];
         }
 
@@ -128,12 +142,20 @@ namespace nmtools::utl
         nmtools_index_attribute
         constexpr reference operator[](index_type i) noexcept
         {
+            #ifdef NMTOOLS_VERIF
+            NMTOOLS_VERIF_CHECK( ((nm_size_t)i >= (nm_size_t)Capacity), 2, i, Capacity );
+            NMTOOLS_VERIF_CHECK( ((nm_size_t)i >= (nm_size_t)size_) && ((nm_size_t)i < (nm_size_t)Capacity), 9, i, size_ );
+            #endif // NMTOOLS_VERIF
             return buffer[i];
         }
 
         nmtools_index_attribute
         constexpr const_reference operator[](index_type i) const noexcept
         {
+            #ifdef NMTOOLS_VERIF
+            NMTOOLS_VERIF_CHECK( ((nm_size_t)i >= (nm_size_t)Capacity), 2, i, Capacity );
+            NMTOOLS_VERIF_CHECK( ((nm_size_t)i >= (nm_size_t)size_) && ((nm_size_t)i < (nm_size_t)Capacity), 9, i, size_ );
+            #endif // NMTOOLS_VERIF
             return buffer[i];
         }
 
